@@ -381,6 +381,8 @@ fn build(tier: Tier) -> Vec<Scenario> {
     if tier == Tier::Quick {
         crate::props::common::deepen(&mut out, &|n| n.contains("/local2/") || n.contains("/local3/"));
     }
+    // slow sources and timed batching: control elements still reach every replica in time
+    out.extend(crate::props::timed::scenarios("C03", tier == Tier::Quick, "C03"));
     out
 }
 
